@@ -60,6 +60,7 @@ func C14Scenarios() []Scenario {
 	d1 := dnsQ("example.org", 1, "", "")
 	d2 := dnsQ("blocked.test", 1, "laptop", "10.0.0.1")
 	d3 := dnsQ("tagged.test", 1, "", "", "pc")
+	d3b := dnsQ("tagged.test", 1, "", "", "phone", "tv")
 	d4 := dnsQ("v6.test", 28, "", "")
 	d5 := dnsQ("blocked.test", 1, "", "")
 	d6 := dnsQ("rw.test", 1, "", "")
@@ -76,6 +77,7 @@ func C14Scenarios() []Scenario {
 		{Name: "S3-lazy-regex-compile-3t", Lists: both, Threads: [][]Query{{rx}, {rx}, {q1}}, Warm: []Query{q1}},
 		{Name: "S4-dns-pool-2t", Lists: both, Threads: [][]Query{{d2, d5}, {d3, d1}}, Warm: []Query{d1}},
 		{Name: "S4-dns-pool-3t", Lists: both, Threads: [][]Query{{d2, d5}, {d3, d4}, {d6, d7}}, Warm: []Query{d1, d7}},
+		{Name: "S4-dns-pool-both-tagged-2t", Lists: both, Threads: [][]Query{{d3, d5}, {d3b, d3}}, Warm: []Query{d1}},
 		{Name: "S5-engine-cosmetic-dns-3t", Lists: both, Threads: [][]Query{{eng}, {cos}, {d1}}, Warm: []Query{eng}},
 		{Name: "S7-engine-referrer-2t", Lists: both, Threads: [][]Query{{eng}, {eng2}}, Warm: []Query{eng}},
 		{Name: "S7-engine-same-referrer-2t", Lists: both, Threads: [][]Query{{eng}, {eng}}, Warm: []Query{eng}},
